@@ -188,6 +188,7 @@ let run_prop (prop : string) (path : string) =
   let shadow_pairs : (string, unit) Hashtbl.t = Hashtbl.create 16 in         (* app:pair with a shadow book *)
   let shadow_fills : (string, string) Hashtbl.t = Hashtbl.create 64 in       (* app:pair:id -> "matched paid recv" *)
   let shadow_kf : (string, unit) Hashtbl.t = Hashtbl.create 8 in             (* app:pair whose shadow book is inside kf_C05_1 *)
+  let app_nets : (string, BinNums.coq_Z list) Hashtbl.t = Hashtbl.create 8 in   (* app -> non-zero base nets of the batches applied so far *)
   let shadow_env : (string, (batch_env * BinNums.coq_Z) list) Hashtbl.t = Hashtbl.create 8 in   (* app -> the engine's batches (ENV form) with their base net *)
   let m_hdr : string list ref = ref [] and m_need = ref 0 and m_rows : mo_row list ref = ref [] in
   let ex_flags : (string, string) Hashtbl.t = Hashtbl.create 8 in            (* app -> the implementation's executed flag *)
@@ -323,7 +324,8 @@ let run_prop (prop : string) (path : string) =
             bump ("endblock:executed:" ^ f);
             if f <> mf then mismatch ~case:!case ~step:!step ~field:("end:app" ^ a ^ ":batch_executed") ~model:mf ~impl:f;
             if f = "0" then begin
-              let nets = L.map snd (try Hashtbl.find shadow_env a with Not_found -> []) in
+              (* base nets of the engine's batches of this app: this block's, and those applied at earlier blocks *)
+              let nets = L.map snd (try Hashtbl.find shadow_env a with Not_found -> []) @ (try Hashtbl.find app_nets a with Not_found -> []) in
               pf ~pred:"endblock_batch_executed" ~kf:(if kf_C05_2_stall nets then "kf_C05_2_stall" else "none")
                 ~detail:(Printf.sprintf "app=%s_batch_rolled_back_orders_and_requests_stay_engine_base_nets=%s" a (S.concat "," (L.map zs nets)))
             end
@@ -655,7 +657,7 @@ let run_prop (prop : string) (path : string) =
         Hashtbl.reset fills_net; Hashtbl.reset nonconserving; Hashtbl.reset changed; Hashtbl.reset prev_changed;
         Buffer.clear sig_; seen_fill := false; seen_end := false; seen_pool := false; seen_farm := false; pending_mm := None;
         Hashtbl.reset mi_ids; Hashtbl.reset shadow_pairs; Hashtbl.reset shadow_fills; Hashtbl.reset shadow_kf; Hashtbl.reset ex_flags;
-        Hashtbl.reset shadow_env; Hashtbl.reset wfee; Hashtbl.reset reported; model_flags := []; m_hdr := []; m_rows := []; m_need := 0; cur_parsed := None; cur_res := ""; seen_shadow_fill := false
+        Hashtbl.reset shadow_env; Hashtbl.reset app_nets; Hashtbl.reset wfee; Hashtbl.reset reported; model_flags := []; m_hdr := []; m_rows := []; m_need := 0; cur_parsed := None; cur_res := ""; seen_shadow_fill := false
       | "op" :: "endpanic" :: _ -> pf ~pred:"endblocker_no_panic" ~kf:"none" ~detail:"EndBlocker_panicked"
       | ["wfee"; a; r] -> Hashtbl.replace wfee a (z r)
       | ["ex"; a; f] -> Hashtbl.replace ex_flags a f
@@ -735,7 +737,10 @@ let run_prop (prop : string) (path : string) =
                         Hashtbl.replace fills_net (ap ^ ":" ^ quote) (zadd (geti fills_net (ap ^ ":" ^ quote)) qn)
                       | _ -> ());
                      bump "batch:matched";
-                     if kf_C05_1_via_fills bn then begin Hashtbl.replace nonconserving ap (); bump "batch:base_not_conserved" end;
+                     if kf_C05_1_via_fills bn then begin
+                       Hashtbl.replace nonconserving ap (); bump "batch:base_not_conserved";
+                       Hashtbl.replace app_nets (zs e.e_app) (bn :: (try Hashtbl.find app_nets (zs e.e_app) with Not_found -> []))
+                     end;
                      if not (zeq qn z0) then bump "batch:quote_net_nonzero"
                    end) e.e_batches;
                if e.e_deps <> [] || e.e_wds <> [] then seen_pool := true) envs
